@@ -45,7 +45,10 @@ def enum_plans(tier):
             dict(cfg="A", depth=5 if th else 4, maxtime=1, alpha=["req1", "req2"], faults=True, maxconn=2, prefix=two_conn_prefix()),
             # the peer stops reading with output queued for it, then the connection closes itself (undecodable bytes) or is lost
             dict(cfg="A", depth=7 if th else 6, maxtime=7 if th else 6, alpha=["stall", "req1", "garbage"], faults=True, maxconn=1,
-                 prefix=two_conn_prefix()[:1] + two_conn_prefix()[2:3])]
+                 prefix=two_conn_prefix()[:1] + two_conn_prefix()[2:3]),
+            # requests the node answers itself because the handler raised (5012): the transaction is complete, its record goes
+            # while the connection stays
+            dict(cfg="RAISE", depth=5 if th else 4, maxtime=0, alpha=["cerok", "req1", "req2"], faults=False, maxconn=1)]
 
 
 def two_conn_prefix():
